@@ -772,3 +772,165 @@ func declText(names map[string]bool) string {
 	}
 	return sb.String()
 }
+
+// ---- DAG-aware printing: closed subterms that occur more than once are hoisted into define-funs.
+
+type dagPrinter struct {
+	count  map[*Term]int
+	closed map[*Term]bool
+	named  map[*Term]string
+	defs   []string
+}
+
+func (d *dagPrinter) isClosed(t *Term) bool {
+	if v, ok := d.closed[t]; ok {
+		return v
+	}
+	c := t.Op != "bvar"
+	if c {
+		for _, a := range t.Args {
+			if !d.isClosed(a) {
+				c = false
+			}
+		}
+		for _, p := range t.Pats {
+			for _, x := range p {
+				if !d.isClosed(x) {
+					c = false
+				}
+			}
+		}
+		if len(t.Bvs) > 0 {
+			// a quantifier binds its variables: closed iff no *other* bound variable is free in it.
+			c = d.quantClosed(t)
+		}
+	}
+	d.closed[t] = c
+	return c
+}
+
+func (d *dagPrinter) quantClosed(t *Term) bool {
+	bound := map[*Term]bool{}
+	var rec func(x *Term, bound map[*Term]bool) bool
+	rec = func(x *Term, bound map[*Term]bool) bool {
+		if x.Op == "bvar" {
+			return bound[x]
+		}
+		if len(x.Bvs) > 0 {
+			nb := map[*Term]bool{}
+			for k := range bound {
+				nb[k] = true
+			}
+			for _, b := range x.Bvs {
+				nb[b] = true
+			}
+			bound = nb
+		}
+		for _, a := range x.Args {
+			if !rec(a, bound) {
+				return false
+			}
+		}
+		return true
+	}
+	return rec(t, bound)
+}
+
+func (d *dagPrinter) visit(t *Term) {
+	if len(t.Args) == 0 {
+		return
+	}
+	d.count[t]++
+	if d.count[t] > 1 {
+		return
+	}
+	for _, a := range t.Args {
+		d.visit(a)
+	}
+}
+
+func (d *dagPrinter) print(t *Term, sb *strings.Builder, top bool) {
+	if !top {
+		if n, ok := d.named[t]; ok {
+			sb.WriteString(n)
+			return
+		}
+		if len(t.Args) > 0 && d.count[t] > 1 && d.isClosed(t) {
+			var b strings.Builder
+			d.print(t, &b, true)
+			n := fmt.Sprintf("$t%d", t.id)
+			d.named[t] = n
+			d.defs = append(d.defs, "(define-fun "+n+" () "+t.S.Name+" "+b.String()+")\n")
+			sb.WriteString(n)
+			return
+		}
+	}
+	switch t.Op {
+	case "const", "var", "bvar":
+		t.write(sb)
+	case "app":
+		if len(t.Args) == 0 {
+			sb.WriteString(smtName(t.Name))
+			return
+		}
+		sb.WriteString("(" + smtName(t.Name))
+		for _, a := range t.Args {
+			sb.WriteByte(' ')
+			d.print(a, sb, false)
+		}
+		sb.WriteByte(')')
+	case "forall", "exists":
+		sb.WriteString("(" + t.Op + " (")
+		for _, b := range t.Bvs {
+			sb.WriteString("(" + smtName(b.Name) + " " + b.S.Name + ")")
+		}
+		sb.WriteString(") ")
+		if len(t.Pats) > 0 {
+			sb.WriteString("(! ")
+		}
+		d.print(t.Args[0], sb, false)
+		if len(t.Pats) > 0 {
+			for _, p := range t.Pats {
+				sb.WriteString(" :pattern (")
+				for i, x := range p {
+					if i > 0 {
+						sb.WriteByte(' ')
+					}
+					x.write(sb) // patterns are printed in full (no macros inside patterns)
+				}
+				sb.WriteString(")")
+			}
+			sb.WriteString(")")
+		}
+		sb.WriteString(")")
+	default:
+		sb.WriteString("(" + t.Op)
+		for _, a := range t.Args {
+			sb.WriteByte(' ')
+			d.print(a, sb, false)
+		}
+		sb.WriteByte(')')
+	}
+}
+
+// printAsserts renders the assertions with shared closed subterms hoisted.
+func printAsserts(asserts []*Term) string {
+	d := &dagPrinter{count: map[*Term]int{}, closed: map[*Term]bool{}, named: map[*Term]string{}}
+	for _, a := range asserts {
+		d.visit(a)
+	}
+	var body strings.Builder
+	var out strings.Builder
+	for _, a := range asserts {
+		var sb strings.Builder
+		d.print(a, &sb, true)
+		// flush definitions created while printing this assertion before the assertion itself
+		for _, df := range d.defs {
+			out.WriteString(df)
+		}
+		d.defs = d.defs[:0]
+		out.WriteString("(assert " + sb.String() + ")\n")
+	}
+	_ = body
+	return out.String()
+}
